@@ -198,3 +198,89 @@ Section Imports.
     rewrite (import_order_refines max_imports (own_of (p_mgmt p)) F Hn Hwf Hnd). reflexivity.
   Qed.
 End Imports.
+
+(* ---- the management-injection rule of ProcessDependencies, for every project and every lookup *)
+
+(* the managed entry of a dependency: the entry of the managed list with its identity *)
+Definition managed_entry (m : list dependency) (d : dependency) : option dependency := find_key (dep_key d) m.
+
+(* own value wins; the managed value fills an empty one (version, scope, exclusions); the optional
+   flag and the identity are never touched; no managed entry, no change *)
+Definition injection_rule (m : list dependency) (d d' : dependency) : Prop :=
+  d_group d' = d_group d /\ d_artifact d' = d_artifact d /\ d_type d' = d_type d /\
+  d_classifier d' = d_classifier d /\ d_optional d' = d_optional d /\
+  match managed_entry m d with
+  | None => d' = d
+  | Some dm =>
+      d_version d' = (if is_empty (d_version d) then d_version dm else d_version d) /\
+      d_scope d' = (if is_empty (d_scope d) then d_scope dm else d_scope d) /\
+      d_excl d' = (match d_excl d with [] => d_excl dm | _ => d_excl d end)
+  end.
+
+Lemma fill_in_rule : forall m d, injection_rule m d (fill_in m d).
+Proof.
+  intros m d. unfold injection_rule, managed_entry, fill_in.
+  destruct (find_key (dep_key d) m) as [dm|]; simpl; repeat split; reflexivity.
+Qed.
+
+Lemma NoDup_app_ok : forall {A} (a b : list A),
+  NoDup a -> NoDup b -> (forall x, In x a -> In x b -> False) -> NoDup (a ++ b).
+Proof.
+  induction a as [|x a IH]; intros b Ha Hb Hd; simpl; [exact Hb|].
+  inversion Ha; subst. constructor.
+  - intro Hin. apply in_app_iff in Hin. destruct Hin as [Hin|Hin]; [contradiction | apply (Hd x); [left; reflexivity | exact Hin]].
+  - apply IH; auto. intros y Hy Hy2. apply (Hd y); [right; exact Hy | exact Hy2].
+Qed.
+
+(* one entry per identity in what the dedupe steps build *)
+Lemma dedupe_into_nodup : forall l m, NoDup (map dep_key m) -> NoDup (map dep_key (dedupe_into m l)).
+Proof.
+  intros l m H. rewrite dedupe_into_firsts, map_app, map_map.
+  rewrite (map_ext (fun x => dep_key (with_jar x)) dep_key dep_key_with_jar).
+  apply NoDup_app_ok; [exact H | apply firsts_nodup|].
+  intros k Hk Hk2. apply in_map_iff in Hk2. destruct Hk2 as [d [Hd Hin]].
+  apply firsts_spec_in in Hin. destruct Hin as [_ Hn]. apply Hn. rewrite Hd. exact Hk.
+Qed.
+
+Section Injection.
+  Variable get : bytes -> bytes -> bytes -> res (list dependency).
+
+  Lemma import_loop_nodup : forall n queue imported m m',
+    NoDup (map dep_key m) -> import_loop get n queue imported m = Ok m' -> NoDup (map dep_key m').
+  Proof.
+    induction n as [|n IH]; intros queue imported m m' H E.
+    - simpl in E. inversion E; subst. exact H.
+    - cbn [import_loop] in E. destruct queue as [|d q]; [inversion E; subst; exact H|].
+      destruct (mem_key (dep_key d) imported); [eapply IH; eauto|].
+      destruct (negb (bytes_eqb (d_type (with_jar d)) s_pom)); [eapply IH; eauto|].
+      destruct (get (d_group d) (d_artifact d) (d_version d)) as [dm| | |]; try discriminate.
+      + rewrite add_dep_management_spec in E. eapply IH; [|exact E]. apply dedupe_into_nodup. exact H.
+      + eapply IH; eauto.
+  Qed.
+
+  (* C15 (dependency-management injection): whatever the project and whatever the lookups return,
+     ProcessDependencies yields the first declaration of every dependency, each changed exactly by
+     the injection rule against the managed list it also returns, and that list has one entry per
+     identity (so "the managed entry" is unambiguous) *)
+  Theorem process_dependencies_injection : forall (p : project) deps m,
+    process_dependencies get p = Ok (deps, m) ->
+    NoDup (map dep_key m) /\
+    Forall2 (injection_rule m) (dedupe_into [] (p_deps p)) deps.
+  Proof.
+    intros p deps m E. unfold process_dependencies in E. rewrite add_dep_management_spec in E. cbn [app] in E.
+    destruct (import_loop get max_imports (imps_of (p_mgmt p)) [] (dedupe_into [] (own_of (p_mgmt p)))) as [m1| | |] eqn:L;
+      try discriminate.
+    cbn [bind] in E. inversion E; subst. split.
+    - eapply import_loop_nodup; [|exact L]. apply dedupe_into_nodup. constructor.
+    - clear E L. induction (dedupe_into [] (p_deps p)) as [|d l IH]; simpl; constructor; [apply fill_in_rule | exact IH].
+  Qed.
+End Injection.
+
+(* the rule distinguishes: an own exclusion list survives a managed one, an empty one is filled *)
+Example injection_rule_inhabited :
+  let dm := mkDep [103] [97] [50] s_jar [] [116] [116;114;117;101] [([120], [121])] in
+  let own := mkDep [103] [97] [] [] [] [] [] [([104], [42])] in
+  let bare := mkDep [103] [97] [49] [] [] [114] [] [] in
+  fill_in [dm] own = mkDep [103] [97] [50] [] [] [116] [] [([104], [42])] /\
+  fill_in [dm] bare = mkDep [103] [97] [49] [] [] [114] [] [([120], [121])].
+Proof. vm_compute. split; reflexivity. Qed.
